@@ -55,6 +55,7 @@ PairSet(s) == {s[k] : k \in 1..Len(s)}
 
 \* conformance of the Rust simulator with the server model: the k-th srv_out record is the k-th reply of the model
 Conf(ww, r) ==
+  IF ww.desync THEN ww ELSE
   LET k == ww.nconf + 1 IN
   IF k > Len(ww.reps) THEN V(ww, "HARNESS", "simulator emitted a reply the server model did not", "")
   ELSE LET rep == ww.reps[k]  ls == ReplyLines(ww, rep) IN
@@ -84,17 +85,17 @@ Step(ww, r) ==
     [] r.e = "event"      -> IF r.t = "chg" THEN WEvent(ww, r.name) ELSE WClosingEvent(ww, r.kind)
     [] r.e = "events_end" -> WEventsEnd(ww)
     [] r.e = "timeout"    -> WTimeout(ww)
-    [] r.e = "quiescent"  -> Chk(WQuiescent(ww), ww.nconf = Len(ww.reps), "HARNESS", "server model emitted a reply the simulator did not")
+    [] r.e = "quiescent"  -> Chk(WQuiescent(ww), ww.desync \/ ww.nconf = Len(ww.reps), "HARNESS", "server model emitted a reply the simulator did not")
     [] r.e = "fault"      -> WFault(ww, r.kind, r.lost)
     [] r.e = "connected"  -> LET g == GreetingRef(GreetSeen(ww)) IN WConnected(ww, r.ok, r.err, r.version, ww.nhCfg, g.ok, g.version, g.cut)
     [] r.e = "final"      -> WFinal(ww, [closed |-> r.closed, closedKnown |-> r.closed_known, evEnded |-> r.ev_ended,
                                          ioDropped |-> r.io_dropped, unresolved |-> PairSet(r.unresolved), alive |-> r.alive])
-    [] r.e = "end"        -> LET w1 == WEnd(ww, PairSet(r.unresolved)) IN
+    [] r.e = "end"        -> LET w1 == WEnd(ww, PairSet(r.unresolved), r.ev_ended, r.io_dropped) IN
                              IF r.panics > 0 THEN V(w1, "PANIC", "a task of the client panicked during the run", "") ELSE w1
     [] r.e = "harness_panic" -> V(ww, "PANIC", "the session driver panicked", "")
     [] OTHER              -> ww      \* write, noop, drain, io_dropped: no effect on the world
 
-Init == i = 0 /\ run = -1 /\ w = [InitW(FALSE, <<>>, <<>>, FALSE, "ok", [embedded |-> -1, file |-> -1, hasMime |-> FALSE, mime |-> <<>>, limit |-> 1, embedded_ack |-> 0, file_ack |-> 0]) EXCEPT !.viol = <<>>] @@ [nhCfg |-> 0]
+Init == i = 0 /\ run = -1 /\ w = [InitW(FALSE, <<>>, <<>>, FALSE, "ok", [embedded |-> -1, file |-> -1, hasMime |-> FALSE, mime |-> <<>>, limit |-> 1, embedded_ack |-> 0, file_ack |-> 0, vary |-> FALSE]) EXCEPT !.viol = <<>>] @@ [nhCfg |-> 0]
 
 Next == /\ i < Len(Recs)
         /\ i' = i + 1
